@@ -217,7 +217,7 @@ static int stub_foreach_done(const uscxml_ctx *ctx, const uscxml_elem_foreach *f
 static int stub_assign(const uscxml_ctx *ctx, const uscxml_elem_assign *a) { g_calls = 1; __CPROVER_assert(a != 0, "C04.callback: assign element"); if (a != 0) SEQ_PLAIN(a->location); return nondet_err(); }
 static int stub_init(const uscxml_ctx *ctx, const uscxml_elem_data *d) { g_calls = 1; __CPROVER_assert(d != 0, "C04.callback: data element"); return nondet_err(); }
 static int stub_cancel(const uscxml_ctx *ctx, const char *sendid, const char *sendidexpr) { SEQ_PLAIN(sendid); g_calls = 1; return nondet_err(); }
-static int stub_script(const uscxml_ctx *ctx, const char *src, const char *content) { g_calls = 1; return nondet_err(); }
+static int stub_script(const uscxml_ctx *ctx, const char *src, const char *content) { SEQ_PLAIN(content); g_calls = 1; return nondet_err(); }
 static int stub_invoke(const uscxml_ctx *ctx, const uscxml_state *s, const uscxml_elem_invoke *inv, unsigned char uninvoke) {
   g_calls = 1;
   __CPROVER_assert(s >= &USCXML_MACHINE.states[0] && s < &USCXML_MACHINE.states[0] + NS, "C04.callback: invoke receives a state of the machine");
@@ -307,7 +307,7 @@ static void setup_ctx(void) {
   for (int k = 0; k < USCXML_MAX_NR_STATES_BYTES; k++) G.il[k] = 0;
 #if D_SEQ > 0
   for (int k = 0; k <= D_SEQ; k++) G.seq_loop[k] = 0;
-  G.seq_on = g_ctx.exec_content_foreach_init != 0 && g_ctx.exec_content_foreach_next != 0 && g_ctx.exec_content_foreach_done != 0 && g_ctx.exec_content_log != 0 && g_ctx.exec_content_raise != 0 && g_ctx.exec_content_send != 0 && g_ctx.exec_content_assign != 0 && g_ctx.exec_content_cancel != 0 && g_ctx.is_true != 0;
+  G.seq_on = g_ctx.exec_content_script != 0 && g_ctx.exec_content_foreach_init != 0 && g_ctx.exec_content_foreach_next != 0 && g_ctx.exec_content_foreach_done != 0 && g_ctx.exec_content_log != 0 && g_ctx.exec_content_raise != 0 && g_ctx.exec_content_send != 0 && g_ctx.exec_content_assign != 0 && g_ctx.exec_content_cancel != 0 && g_ctx.is_true != 0;
   G.seq_expect = 0;
   for (int k = 0; k <= D_SEQ; k++) G.seq_started[k] = 0;
 #endif
